@@ -70,3 +70,7 @@ add("C15","exploration",
     "Held on every generated configuration (800 quick / 8000 thorough, one fresh pgcat each): files with a listed unservable defect are rejected at start-up; every accepted file passes a servability sweep (every selectable shard x role x user, default shard, admin commands incl. BAN/UNBAN) against mocks labelled pool.shardkey.role without panics, refusals or misrouting.",
     "Trusted: the generator's defect classes for its own bounded grammar; acceptance is judged at start-up (reload acceptance is covered by C14's invalid variants).",
     "runtime monitoring: accept/reject vs generator class + servability sweep on labelled mocks", "DESIGN.md 5 C15")
+add("C11","exploration",
+    "Held on every hostile case produced (1440 quick / 24000 thorough): 7 protocol states x 50 mutations of startup packets, frames, bodies and message order; after each case pgcat is alive, a canary on the shared pool_size=1 pool gets its own correct reply on a clean session, a canary on a second pool is served while the attacker is still connected, capacity and admin console are intact.",
+    "Trusted: canary/probe oracles reuse C02's cleanliness and C04's capacity probe; declared lengths above 64 MiB are outside the verdict (RSS is reported); sender-confined panics are allowed by the property and only catalogued. ASan/Miri legs for the decoders are not built (see DESIGN).",
+    "runtime monitoring: hostile-input injection with liveness + canary + capacity oracles", "DESIGN.md 5 C11")
